@@ -591,12 +591,16 @@ fn date_time_offset(date: (i32, u32, u32), time: (u32, u32, u32, u32), offset: i
 }
 
 /// Returns time offset (in seconds) between local time zone
-/// and UTC time zone at specified date and time.
+/// and UTC time zone at specified local date and time.
+/// The date and time are a wall clock reading of the local time zone (like in [get_zone_offset]),
+/// when this reading does not exist or is ambiguous in the local time zone, [None] is returned.
 fn get_local_offset(date: (i32, u32, u32), time: (u32, u32, u32, u32)) -> Option<i32> {
   if let Some(naive_date) = NaiveDate::from_ymd_opt(date.0, date.1, date.2) {
     if let Some(naive_time) = NaiveTime::from_hms_nano_opt(time.0, time.1, time.2, time.3) {
       let naive_date_time = NaiveDateTime::new(naive_date, naive_time);
-      return Some(Local.offset_from_utc_datetime(&naive_date_time).local_minus_utc());
+      if let LocalResult::Single(offset) = Local.offset_from_local_datetime(&naive_date_time) {
+        return Some(offset.local_minus_utc());
+      }
     }
   }
   None
